@@ -85,3 +85,25 @@ Theorem Conc_offline_never_allocated : forall g policy u held0 n sch1 sch2 i,
   (forall t, tree_at (m2_up (fst y)) i = Some t -> t_free t = 0).
 Proof. exact conc_offline_hidden. Qed.
 Print Assumptions Conc_offline_never_allocated.
+
+(* Composition with construction: from what LLFree::new builds (free-all or allocate-all, EVERY frame
+   count, any classing with ids < 8 and a configured default, zeroed local buffer) and for each of the
+   repository's policies, every schedule of valid-parameter calls (any number of threads) keeps the whole
+   allocator safe - no invariant is left as a hypothesis. *)
+From LLF Require Import Policies PolicyFacts GlueHistory ConcFromNew.
+Theorem Conc_from_new : forall g, wf_geom g -> forall p, builtin_policy p (TF g) ->
+  forall fr i classing d lbuf tbuf sbuf,
+    (i = IFreeAll \/ i = IAllocAll) ->
+    Forall (fun s => s_pres s = false) sbuf ->
+    (forall c k, In (c, k) classing -> c < 8) ->
+    (exists k, In (d, k) classing) ->
+    exists u, llfree_new g fr i classing d lbuf tbuf sbuf = Ok u /\
+      forall n sch, sched_valid g u sch ->
+        let x := UpperConcInv.grun g p sch (uboot u (held_of_init g i fr) n, zeros u) in
+        let s := fst x in
+        s = urun g p sch (uboot u (held_of_init g i fr) n) /\
+        (forall z, In z (upanicked s) -> z = SExceedingRetries) /\
+        uheld_ok s = true /\
+        (uquiescent s -> UpperInv g p {| us := m2_up s; off := snd x |}).
+Proof. exact conc_from_new. Qed.
+Print Assumptions Conc_from_new.
